@@ -1139,6 +1139,29 @@ func ruleScaleSame(c *Ctx, rule string) {
 		}
 		// compared as multisets: the order in which nested call expressions are written (f(g(x)) against
 		// t := g(x); f(t)) is not what the rule is about
+		// clearSolutionOnly() after a routine that itself clears before every return is a repetition: dropped on
+		// both sides
+		if ex := c.fnOpt("(clipperBase).execute"); ex != nil && allReturnsPrecededBy(c, ex, "(clipperBase).clearSolutionOnly", 0) {
+			drop := func(l []string) []string {
+				has := false
+				for _, x := range l {
+					if strings.HasPrefix(x, "(clipperBase).execute(") {
+						has = true
+					}
+				}
+				if !has {
+					return l
+				}
+				var o []string
+				for _, x := range l {
+					if x != "(clipperBase).clearSolutionOnly()" {
+						o = append(o, x)
+					}
+				}
+				return o
+			}
+			ds, ws = drop(ds), drop(ws)
+		}
 		sd, sw := append([]string(nil), ds...), append([]string(nil), ws...)
 		sort.Strings(sd)
 		sort.Strings(sw)
